@@ -5,6 +5,7 @@
 #include "lib/lha_decoder.h" /* lib/lha_decoder.h: struct layout, only used for state hashing */
 #include "ref_lz.h"
 #include "ref_crc16.h"
+#include "streams.h"
 #include <sys/personality.h>
 
 /* input source owned by the harness; static so that its address is the same in every case */
@@ -23,6 +24,12 @@ static size_t vin_cb(void *buf, size_t len, void *u)
 	++v->calls;
 	if (k > len) k = len;
 	if (v->chunk > 0 && k > (size_t) v->chunk) k = (size_t) v->chunk;
+	if (v->chunk < 0) {
+		/* irregular pieces: short answers followed by longer ones */
+		static const uint8_t pat[3][4] = { { 1, 4, 1, 4 }, { 3, 1, 4, 2 }, { 2, 5, 1, 7 } };
+		size_t lim = pat[(-v->chunk - 1) % 3][(v->calls - 1) & 3];
+		if (k > lim) k = lim;
+	}
 	if (k == 0) { ++v->zero_calls; return 0; }
 	memcpy(buf, v->p + v->pos, k);
 	v->pos += k;
@@ -154,6 +161,37 @@ static size_t vin2_cb(void *buf, size_t len, void *u)
 	return k;
 }
 
+/* A long valid stream of the same method decoded to the end in this process before the case's own stream (every 4th case,
+ * and always when a single case is replayed): nothing may be carried from one decoder's life into the next. */
+static void dec_pollute(const char *method)
+{
+	static struct { const char *m; uint8_t *in; size_t n, elen; } P[14];
+	static uint8_t *exp, *out;
+	int i;
+	LHADecoderType *dt;
+	LHADecoder *d;
+	for (i = 0; i < 14 && P[i].m && strcmp(P[i].m, method); ++i);
+	if (i == 14) return;
+	if (!exp) { exp = malloc(1 << 15); out = malloc((1 << 15) + 8); }
+	if (!P[i].m) {
+		uint8_t *buf = malloc(1 << 16);
+		P[i].m = method;
+		P[i].n = make_stream(method, 9000, 3, buf, 1 << 16, exp, 1 << 15, &P[i].elen);
+		P[i].in = buf;
+	}
+	if (!P[i].n) return;
+	dt = lha_decoder_for_name((char *) method);
+	if (!dt) return;
+	VIN.p = P[i].in; VIN.n = P[i].n; VIN.pos = 0; VIN.chunk = 0; VIN.calls = 0;
+	d = lha_decoder_new(dt, vin_cb, &VIN, P[i].elen);
+	if (!d) return;
+	{
+		size_t tot = 0, g;
+		while (tot <= P[i].elen && (g = lha_decoder_read(d, out + tot, P[i].elen + 1 - tot)) > 0) tot += g;
+	}
+	lha_decoder_free(d);
+}
+
 /* decode 'in' with declared length = elen and require exactly 'exp'.  Returns 1 when equal. */
 static int dec_expect(const char *site, const char *method, const uint8_t *in, size_t n,
                       const uint8_t *exp, size_t elen, int chunk)
@@ -163,6 +201,7 @@ static int dec_expect(const char *site, const char *method, const uint8_t *in, s
 	uint8_t *out = malloc(elen + 2);
 	size_t got;
 	dec_dump(method, in, n);
+	if ((VF.index & 3) == 2 || VF.only >= 0) dec_pollute(method);
 	if ((VF.index & 3) == 0 && elen > 1) {
 		LHADecoderType *dt = lha_decoder_for_name((char *) method);
 		LHADecoder *d1, *d2;
@@ -191,9 +230,10 @@ static int dec_expect(const char *site, const char *method, const uint8_t *in, s
 	/* input delivered in pieces of 1..3 bytes: a legal answer of the input callback for the bit-reader decoders */
 	if ((VF.index & 3) == 1 && elen > 0 && strcmp(method, "-lz5-") && strcmp(method, "-lh0-") && strcmp(method, "-lz4-") && strcmp(method, "-pm0-")) {
 		dec_result rc;
-		size_t gc = dec_run(method, in, n, elen, out, 0, 1 + (int) ((VF.index >> 2) % 3), &rc);
+		int sel = (int) ((VF.index >> 2) % 6), ck = sel < 3 ? 1 + sel : -(sel - 2);
+		size_t gc = dec_run(method, in, n, elen, out, 0, ck, &rc);
 		if (gc != elen || memcmp(out, exp, elen))
-			vf_viol("decoder-input-chunking", "method=%s in=%s: output differs when the input callback delivers at most %d bytes per call (%zu of %zu bytes)", method, vf_hex(in, n), 1 + (int) ((VF.index >> 2) % 3), gc, elen);
+			vf_viol("decoder-input-chunking", "method=%s in=%s: output differs when the input callback delivers its bytes in pieces (mode %d: at most k bytes, or irregular pattern -k) (%zu of %zu bytes)", method, vf_hex(in, n), ck, gc, elen);
 	}
 	got = dec_run(method, in, n, elen, out, 0, chunk, &r);
 	int ok = 1;
